@@ -239,10 +239,27 @@ def new_value_object(ex, st, cname, **fields):
     value objects (glyf records, Transform tuples) out of the loop havoc and immune to the aliasing of unallocated list elements."""
     r = ex.new_object(st, cname)
     cs = CLASSES[cname]
+    known = {}
     for n, v in fields.items():
         arr = ex.field_array(st, cname, n)
-        st.assume(z3.Select(arr, lift(r)) == lift(v, cs.fields[n]))
+        t = lift(v, cs.fields[n])
+        st.assume(z3.Select(arr, lift(r)) == t)
+        known[n] = Val(cs.fields[n], t)
+    # every state that can mention this fresh constant descends from `st` and carries the equations above, so a reader may use
+    # the value itself instead of Select(arr, r): the substitution is done here, not left to the (non-linear) arithmetic solver
+    _VALUE_OBJECTS[lift(r).get_id()] = (lift(r), cname, known)
     return r
+
+
+_VALUE_OBJECTS: dict = {}
+
+
+def value_fields(v, cname):
+    """the constructor values of a fresh value object (None if `v` is not syntactically one)"""
+    if getattr(v, "term", None) is None:
+        return None
+    hit = _VALUE_OBJECTS.get(v.term.get_id())
+    return hit[2] if hit is not None and hit[1] == cname and hit[0].eq(v.term) else None
 
 
 def _ttpen_glyph(ex, st, self, args, kwargs, node):
@@ -387,6 +404,9 @@ cls("Transform", fields={k: REAL for k in _T6}, notes="fontTools Transform: immu
 def _six(ex, st, v, node=None):
     """six REAL Vals from a Transform reference, a python tuple of Vals/constants, or a Tuple-typed value"""
     if isinstance(v.ty, T.Ref):
+        known = value_fields(v, "Transform")
+        if known is not None and all(k in known for k in _T6):
+            return [known[k] for k in _T6]
         # direct array reads (ex.read_field stringifies the receiver term for its python-level field table: very slow on ite-terms)
         return [Val(REAL, z3.Select(ex.field_array(st, "Transform", k), lift(v))) for k in _T6]
     if v.is_py and isinstance(v.py, (tuple, list)) and len(v.py) == 6:
@@ -471,6 +491,21 @@ def composed6(c, n):
             f"({n[2]} * {c[1]} + {n[3]} * {c[3]})", f"({c[0]} * {n[4]} + {c[2]} * {n[5]} + {c[4]})", f"({c[1]} * {n[4]} + {c[3]} * {n[5]} + {c[5]})"]
 
 
+
+@specfn(REAL, fuel=1, a=REAL, b=REAL, c=REAL, d=REAL)
+def dot2(a, b, c, d):
+    """a*b + c*d.  The (dead) self-reference makes the engine keep `dot2` as a SYMBOL whose defining equation is
+    instantiated at ground applications only: quantified invariants that mention it are free of non-linear arithmetic
+    (solvers do not terminate reliably on products under a quantifier), the arithmetic is done once, at the hint."""
+    return a * b + c * d if True else dot2(a, b, c, d)
+
+
+def composed6d(c, n):
+    """composed6 written with dot2 (term for term the same polynomials)"""
+    return [f"dot2({n[0]}, {c[0]}, {n[1]}, {c[2]})", f"dot2({n[0]}, {c[1]}, {n[1]}, {c[3]})", f"dot2({n[2]}, {c[0]}, {n[3]}, {c[2]})",
+            f"dot2({n[2]}, {c[1]}, {n[3]}, {c[3]})", f"(dot2({c[0]}, {n[4]}, {c[2]}, {n[5]}) + {c[4]})", f"(dot2({c[1]}, {n[4]}, {c[3]}, {n[5]}) + {c[5]})"]
+
+
 _R = composed6(_C, _N)
 _inner = _ap(_N, "x", "y")
 _nested = _ap(_C, _inner[0], _inner[1])
@@ -518,7 +553,10 @@ def _fgs_contains(ex, st, self, x):
     return z3.Select(d.ty.sort().dom(d.term), lift(x, STR))
 
 
-cls("C02_FGlyphSet", fields={"glyphs": Dict(STR, Ref("C02_FGlyph"))}, getitem=_fgs_getitem, contains=_fgs_contains, views={"glyphs": lambda o: dict(o.items())},
+cls("C02_FGlyphSet", fields={"glyphs": Dict(STR, Ref("C02_FGlyph"))}, getitem=_fgs_getitem, contains=_fgs_contains,
+    # `names`: the key SET (quantifying over it, unlike iterating the dict, brings no key-order facts into the obligation)
+    derived={"names": lambda ex, st, self: Val(Set(STR), ex.read_field(st, self, "glyphs").ty.sort().dom(ex.read_field(st, self, "glyphs").term))},
+    views={"glyphs": lambda o: dict(o.items()), "names": lambda o: set(o.keys())},
     notes="glyph set: name -> glyph")
 
 contract(
@@ -532,7 +570,7 @@ contract(
 )
 
 _SOM = "(len({g}.components) == 0 or {g}.ncontours > 0)"
-_CLOSED = "all(glyphSet.glyphs[n].ncontours >= 0 and all(c.baseGlyph in glyphSet.glyphs for c in glyphSet.glyphs[n].components) for n in glyphSet.glyphs)"
+_CLOSED = "all(glyphSet.glyphs[n].ncontours >= 0 and all(c.baseGlyph in glyphSet.glyphs for c in glyphSet.glyphs[n].components) for n in glyphSet.names)"
 _PAIR = Tuple(STR, Ref("Transform"))
 
 
@@ -582,6 +620,8 @@ contract(
     hints={"flat_tr = flat_tr.transform((tr.xx, tr.xy, tr.yx, tr.yy, 0, 0))": [
         # the arithmetic core, free of any sequence reasoning: translate-then-2x2 IS the composition component.T ∘ tr
         _eq6("flat_tr", composed6(_CT, [f"tr.{k}" for k in _T6])),
+        # the same six equations through the symbol dot2 (its definition is instantiated here, at ground terms)
+        _eq6("flat_tr", composed6d(_CT, [f"tr.{k}" for k in _T6])),
     ], "flattened_components[i] = (name, flat_tr)": [
         "len(flattened_components) == len(prev) and flattened_components[i] == (name, flat_tr)",
         "all(flattened_components[k] == prev[k] for k in range(i))",
@@ -599,7 +639,7 @@ contract(
                 # THE composition: entry k becomes (same name, component.T ∘ nested.T) with the exact six terms
                 "composed-name": "all(flattened_components[k][0] == raw[k][0] for k in range(k0))",
                 **{"composed-" + _k: "all(flattened_components[k][1]." + _k + " == " + _e + " for k in range(k0))"
-                   for _k, _e in zip(_T6, composed6(_CT, [f"raw[k][1].{k}" for k in _T6]))},
+                   for _k, _e in zip(_T6, composed6d(_CT, [f"raw[k][1].{k}" for k in _T6]))},
                 # (the engine iterates the list value as it was at loop entry, i.e. `tr` IS raw[k0][1]; Python reads the live list, which
                 #  agrees because only position i — already read — is replaced.  "Positions > k0 are still raw" is therefore not needed.)
             },
